@@ -771,22 +771,46 @@ func runCancel(c *core.Ctx) {
 					continue
 				}
 				found = true
-				if !mustPassBefore(b.Succs[1-nilSucc],
-					func(in ssa.Instruction) bool {
+				cancels := func(of ssa.Value) func(in ssa.Instruction) bool {
+					return func(in ssa.Instruction) bool {
 						cl, isCall := in.(ssa.CallInstruction)
-						return isCall && r.IsAPI(cl, "BlobCreator", "Cancel") && an.Origin(cl.Common().Value) == sess
-					},
-					func(in ssa.Instruction) bool {
-						if _, isRet := in.(*ssa.Return); isRet {
+						return isCall && r.IsAPI(cl, "BlobCreator", "Cancel") && an.Origin(cl.Common().Value) == of
+					}
+				}
+				answers := func(in ssa.Instruction) bool {
+					if _, isRet := in.(*ssa.Return); isRet {
+						return true
+					}
+					if cl, isCall := in.(ssa.CallInstruction); isCall {
+						if _, isWH := writeHeaderStatus(cl); isWH {
 							return true
 						}
-						if cl, isCall := in.(ssa.CallInstruction); isCall {
-							if _, isWH := writeHeaderStatus(cl); isWH {
-								return true
+					}
+					return false
+				}
+				if mustPassBefore(b.Succs[1-nilSucc], cancels(sess), answers) {
+					continue
+				}
+				// a commit step that hands the failure to its caller (an error, or a record naming the step that failed):
+				// the caller cancels on the edges that outcome takes it to, before it answers
+				inCaller := false
+				if sp, isParam := sess.(*ssa.Parameter); isParam {
+					if site, edges, okc := callerEdgesOfOutcome(c, fn, b, 1-nilSucc); okc {
+						for k, q := range fn.Params {
+							if q != sp || k >= len(site.Call.Args) {
+								continue
+							}
+							csess := an.Origin(site.Call.Args[k])
+							inCaller = true
+							for _, e := range edges {
+								if !mustPassBefore(e.From.Succs[e.Succ], cancels(csess), answers) {
+									inCaller = false
+								}
 							}
 						}
-						return false
-					}) {
+					}
+				}
+				if !inCaller {
 					ok = false
 				}
 			}
